@@ -212,7 +212,8 @@ def make_spec(stream, rng, edge_index=None):
         spec = simgen.gen_spec(rng, pairing=rng.choice(["queue", "batch", "queue", "dynamic"]))
         spec["delay"] = None
         obs = spec["observations"]
-        kinds = ["threshold", "handover", "threshold2", "hotfit", "coldfit", "machines", "ingestlimit", "arrays", "rate"]
+        kinds = ["threshold", "handover", "threshold2", "hotfit", "coldfit", "machines", "ingestlimit", "arrays", "rate",
+                 "coldshort"]
         which = kinds[edge_index % len(kinds)] if edge_index is not None else rng.choice(kinds)
         obs.sort(key=lambda o: o["start"])
         if len(obs) < 2 and which in ("threshold2", "hotfit", "ingestlimit", "arrays", "handover"):
@@ -254,6 +255,18 @@ def make_spec(stream, rng, edge_index=None):
         elif which == "coldfit":
             a = obs[0]
             spec["cold"]["capacity"] = a["rate"] * a["duration"]
+        elif which == "coldshort":
+            # the LAST observation fits the hot tier but is one unit too big for the cold tier: never admitted
+            b = obs[-1]
+            b["rate"] = max(1, b["rate"])
+            vb = b["rate"] * b["duration"]
+            tot = sum(o["rate"] * o["duration"] for o in obs)
+            spec["hot"]["capacity"] = int(tot / 0.6) + 5
+            spec["hot"]["rate"] = max(spec["hot"]["rate"], b["rate"])
+            spec["cold"]["capacity"] = max(1, vb - 1)
+            for o in obs[:-1]:
+                if o["rate"] * o["duration"] > spec["cold"]["capacity"]:
+                    o["rate"] = 0
         elif which == "machines":
             for o in obs:
                 o["ingest_demand"] = nm
@@ -292,7 +305,7 @@ def make_spec(stream, rng, edge_index=None):
             spec["observations"] = obs = [x, y] + rest
         for o in obs:
             o["ingest_demand"] = min(o["ingest_demand"], spec["max_ingest"], nm)
-        if which not in ("threshold", "threshold2", "hotfit", "coldfit"):
+        if which not in ("threshold", "threshold2", "hotfit", "coldfit", "coldshort"):
             tot = sum(o["rate"] * o["duration"] for o in obs)
             spec["hot"]["capacity"] = int(tot / 0.6) + 5
             spec["cold"]["capacity"] = spec["hot"]["capacity"] + 5
